@@ -197,6 +197,14 @@ def signer_cells(ix, base):
                     (ENTITLED[ix] == "user-recv" or variant == "F")
                 c["mode"] = "full" if full else "val"
                 out.append(meta(A.line(c), k="signer", f=role, who=who, v=variant, role="1"))
+    # bad-debt settlement: with the bank's PERMISSIONLESS_BAD_DEBT_SETTLEMENT flag anyone may sign, without it only the
+    # group admin or the risk admin
+    if ix == "lending_pool_handle_bankruptcy" and base["mode"] == "full":
+        bank = objs["bank"]
+        for who in ["s", "liq", "u", "adm", "rsk", "fadm", "emi"]:
+            c = A.with_tweak(dict(base), f"bflag:{bank}:4:1")
+            c = token_follow(A.with_field(c, role, who), who)
+            out.append(meta(A.line(c), k="signer", f=role, who=who, v="P", role="1"))
     return out
 
 
@@ -471,6 +479,8 @@ def must_reject(k):
         acct = objs.get(ACCT_FIELD.get(ix, "marginfi_account"), "").lstrip("~")
         variant = ("F" if any(t.startswith("aflag:") and t.endswith(":64:1") for t in tw) else "") + \
                   ("R" if any(t.startswith("aflag:") and t.endswith(":16:1") for t in tw) else "")
+        if ix == "lending_pool_handle_bankruptcy" and any(t.startswith("bflag:") and t.endswith(":4:1") for t in tw):
+            return None          # permissionless settlement: every signer is entitled
         fams = {family(o) for _, o in fields} - {None}
         fam = "B" if fams == {"B"} else "A"
         if not entitled(ix, objs[role], variant or "N", AUTH_OF.get(acct), fam):
